@@ -191,7 +191,14 @@ def execute(scn):
         if op["op"] == "take_cycle":
             gc.collect()
         resolved_refs = CountingResolver.n_resolve
-        if not same(out, exp):
+        if _stack_exhausted(exp) and not _stack_exhausted(out) and "inst" in op and \
+                isinstance(instances[op["inst"]], dict) and list(instances[op["inst"]]) == ["$deep"]:
+            # under the stack-exhaustion fault the FRESH validator died and the reused one did not: a cold cache
+            # needs a frame or two more per level than a warm one (an lru hit does not call the wrapped function), so
+            # an instance whose depth sits exactly on the limit separates them.  That is the resource boundary, not
+            # a memory of earlier instances; the opposite direction (reused dies, fresh does not) stays a violation.
+            actor.probe("stack_limit_between_cold_and_warm_caches")
+        elif not same(out, exp):
             violations.append({"oracle": "history-dependent", "where": i, "op": op["op"],
                                "detail": {"got": out, "fresh": exp}})
         # ---- bookkeeping for evidence
